@@ -23,8 +23,24 @@ def evaluate(doc, orch):
         g = dict(doc["golden"]); g["args"] = dict(g["args"], want=["files"])
         r = dict(doc["run"]); r["args"] = dict(r["args"], want=["files"])
         i1 = orch.submit(g["hashseed"], g["fn"], g["args"])
-        i2 = orch.submit(r["hashseed"], r["fn"], r["args"])
-        out = orch.run_all()
+        if r["args"].get("phase") == "resume":
+            # two halves under two hash seeds: the killed run first (fork server of the cell's seed), then the resume
+            first = dict(r["args"], phase="crash")
+            first.pop("rundir", None)
+            first.pop("resume_hashseed", None)
+            i0 = orch.submit(r["hashseed"], r["fn"], first)
+            out = orch.run_all()
+            h = out[i0][1]
+            if not h.get("ok") or not h["res"].get("rundir"):
+                return {"reproduced": False, "detail": "first half: %s" % (h.get("err") or h.get("res")), "sig": "harness", "harness": str(h.get("err"))}
+            second = dict(r["args"], rundir=h["res"]["rundir"])
+            other = second.pop("resume_hashseed", (r["hashseed"] + 5) % 8)
+            i2 = orch.submit(other, r["fn"], second)
+            out2 = orch.run_all()
+            out.update(out2)
+        else:
+            i2 = orch.submit(r["hashseed"], r["fn"], r["args"])
+            out = orch.run_all()
         a, b = out[i1][1], out[i2][1]
         if not (a.get("ok") and b.get("ok")):
             return {"reproduced": False, "detail": "", "sig": "harness", "harness": "%s %s" % (a.get("err"), b.get("err"))}
@@ -43,7 +59,19 @@ def evaluate(doc, orch):
                 "trace_sha": b["res"].get("trace_sha")}
     if oracle == "self":
         j = doc["run"]
-        jid = orch.submit(j["hashseed"], j["fn"], j["args"])
+        if j["args"].get("phase") == "resume":
+            first = dict(j["args"], phase="crash")
+            first.pop("rundir", None)
+            other = first.pop("resume_hashseed", (j["hashseed"] + 5) % 8)
+            i0 = orch.submit(j["hashseed"], j["fn"], first)
+            h = orch.run_all()[i0][1]
+            if not h.get("ok") or not h["res"].get("rundir"):
+                return {"reproduced": False, "detail": "first half: %s" % (h.get("err") or h.get("res")), "sig": "harness", "harness": str(h.get("err"))}
+            second = dict(j["args"], rundir=h["res"]["rundir"])
+            second.pop("resume_hashseed", None)
+            jid = orch.submit(other, j["fn"], second)
+        else:
+            jid = orch.submit(j["hashseed"], j["fn"], j["args"])
         res = orch.run_all()[jid][1]
         if not res.get("ok"):
             return {"reproduced": False, "detail": "", "sig": "harness", "harness": res.get("err")}
